@@ -28,7 +28,7 @@ def script_for(i, c):
     if VALS[c["tval"]] is not None:
         hdr[tname] = VALS[c["tval"]]
     steps = []
-    req = {"a": "req", "id": 9, "client": "10.0.0.1", "plan": "ok", "hdr": hdr}
+    req = {"a": "req", "id": 9, "client": "10.0.0.1", "plan": "ok+ownid" if c["bown"] else "ok", "hdr": hdr}
     if c["path"] == "limited429":
         cfg["rl"] = {"on": True, "max": 1, "refill": 3600}
         steps.append({"a": "req", "id": 1, "client": "10.0.0.1", "plan": "ok"})
@@ -121,7 +121,7 @@ def run(tier):
             return {"clause": clause, "burst": e["burst"]["n"]}
         c = e["c"]
         return {"clause": clause, "path": c["path"], "plugin": c["plugin"], "rval": c["rval"], "hdr": c["hdr"],
-                "reqOn": c["reqOn"], "traceOn": c["traceOn"]}
+                "reqOn": c["reqOn"], "traceOn": c["traceOn"], "bown": c["bown"]}
     cases.judge(chk, "ObsIdTrace", "ObsIdTrace.cfg", jp, sig, "ids")
     wire(chk, sd)
     chk.sample(recs[0])
